@@ -1092,12 +1092,8 @@ def latent_conflict(fixture, hist):
     two different things, so view-based monitors skip such states."""
     return fixture.startswith('populated') and any(op[0] == 'create' and (op[2] in (1, 2) or 'u1' in op[3].values()) for op in hist)
 
-_QUICK_MODELS = None
+DEEP_MODELS = ('o2m-req', 'o2m', 'o2o', 'o2o-req', 'm2m', 'sym_o2o', 'sym_m2m', 'self_o2m', 'casc3', 'mix3')
 def deep_model(name):
-    """the models of the quick catalogue get the deepest histories of the thorough tier; the models that only the
-    thorough catalogue adds (option variants of the same relationship kinds) are explored one level shallower"""
-    global _QUICK_MODELS
-    if _QUICK_MODELS is None:
-        from vf.models import catalog
-        _QUICK_MODELS = set(m.name for m in catalog.catalogue('quick'))
-    return name in _QUICK_MODELS
+    """one model per relationship kind (plus the two three-entity models in which two relationships meet) gets the deepest
+    histories of the thorough tier; the option variants of the same kinds are explored one level shallower"""
+    return name in DEEP_MODELS
